@@ -293,17 +293,27 @@ pub fn exec(sc: &Sc) -> Outcome {
 }
 
 pub fn scenarios(tier: Tier) -> Vec<Sc> {
-    let thorough = tier == Tier::Thorough;
+    let thorough = tier >= Tier::Thorough;
+    let deep = tier >= Tier::Deep;
     let mut out = vec![];
-    let validities: Vec<i64> = vec![1, 13 * DAY, 14 * DAY - 1, 14 * DAY, 14 * DAY + 1, 15 * DAY, 365 * DAY];
+    let mut validities: Vec<i64> = vec![1, 13 * DAY, 14 * DAY - 1, 14 * DAY, 14 * DAY + 1, 15 * DAY, 365 * DAY];
+    if deep {
+        validities.extend([2, 60, 3600, DAY - 1, DAY, DAY + 1, 7 * DAY, 14 * DAY - 2, 14 * DAY + 2, 28 * DAY, 3650 * DAY]);
+    }
     for key in 0..3u8 {
         for &v in &validities {
             // now in {nb-1, nb, nb+1, mid, na-1, na, na+1}
             let mut nows: Vec<(i64, bool)> = vec![(-1, false), (0, false), (1, false), (v / 2, false), (-1, true), (0, true), (1, true)];
             if thorough {
-                for d in 2..=60 {
+                for d in 2..=if deep { 900 } else { 60 } {
                     nows.push((-d, false));
                     nows.push((d, true));
+                }
+                if deep {
+                    for d in 2..=120 {
+                        nows.push((d, false));
+                        nows.push((-d, true));
+                    }
                 }
             }
             for (off, from_end) in nows {
@@ -315,7 +325,8 @@ pub fn scenarios(tier: Tier) -> Vec<Sc> {
     }
     if thorough {
         // second-by-second sweep around the 14-day bound
-        for d in -60i64..=60 {
+        let span = if deep { 3600i64 } else { 60 };
+        for d in -span..=span {
             for hashes in [1u8, 3] {
                 out.push(Sc::Direct { key: 0, validity_s: 14 * DAY + d, now_offset: 3600, from_end: false, hashes });
             }
@@ -323,6 +334,15 @@ pub fn scenarios(tier: Tier) -> Vec<Sc> {
     }
     for cut in [1usize, 2, 10, 50, 100, 200, 300, 400] {
         out.push(Sc::BadDer { cut, flip: 0 });
+    }
+    if deep {
+        // every single bit of the certificate (its DER is shorter than 640 bytes)
+        for f in 0..5120usize {
+            out.push(Sc::BadDer { cut: 0, flip: f });
+        }
+        for cut in 1..640usize {
+            out.push(Sc::BadDer { cut, flip: 0 });
+        }
     }
     let nflips = if thorough { 3000 } else { 400 };
     for f in 0..nflips {
@@ -333,7 +353,7 @@ pub fn scenarios(tier: Tier) -> Vec<Sc> {
             out.push(Sc::EndToEnd { policy, identity });
         }
     }
-    out
+    dedup(out, |s| s.to_json().to_string())
 }
 
 pub fn run_check(args: &Args) -> i32 {
